@@ -129,6 +129,13 @@ def bad_messages(sid, cbid, tier):
     for cbv in ((), ('r',), ('r', '/'), ('r', '/', 1, 2), 'abc', 5,
                 [sid, '/', 1]):
         add(dict(full['emit'], callback=cbv))
+    # emits that ask for an acknowledgement under the id of the local
+    # outstanding callback, complete and with every field missing in turn
+    withcb = dict(full['emit'], callback=(sid, '/', cbid), room=sid)
+    add(withcb)
+    for f in withcb:
+        if f not in ('method', 'callback'):
+            add({k: v for k, v in withcb.items() if k != f})
     # non-dict values
     for v in (5, [1, 2], 'method', ('method',), None, True, 'emit',
               {'no-method': 1}, {}, {'method': None}, {'method': 5},
@@ -294,6 +301,14 @@ def run_sequence(is_async, items, fault=None, with_cb=True):
                     v.append(('C15/echo-applied', f'{what}: an own-host '
                               f'echo had effects: frames {other}, log '
                               f'{log}'))
+        # the client acknowledges every event it was sent with an id
+        # (none of them is the answer to the local emit): the answers to
+        # foreign emits go back to the channel, never into a local callback
+        if fault is None:
+            for f in frames:
+                if f[1] in (2, 5) and f[3] is not None and \
+                        f[4][:1] != ['q']:
+                    w.recv_packet(t, 3, f[2], f[3], ['late'])
         own_cb = any(isinstance(m, dict) and m.get('method') == 'callback'
                      and m.get('host_id') == 'H0' for m in msgs)
         if fired and not own_cb:
